@@ -6,6 +6,7 @@ import (
 	"maps"
 	"math/big"
 	"reflect"
+	"regexp"
 	"strconv"
 	"strings"
 	"time"
@@ -2115,115 +2116,41 @@ func applyParsedTagRules(schema core.ZodSchema, fieldInfo tagparser.FieldInfo) c
 		case "nilable":
 			schema = applyNilableModifier(schema)
 		case "email":
-			// Replace string schema with email schema
-			// But preserve pointer type if it's a pointer schema
-			switch schema.(type) {
-			case *ZodString[string]:
-				schema = Email()
-			case *ZodString[*string]:
-				schema = EmailPtr()
-			}
+			schema = applyStringFormat(schema, Email())
 		case "url":
-			// Replace string schema with URL schema
-			switch schema.(type) {
-			case *ZodString[string]:
-				schema = URL()
-			case *ZodString[*string]:
-				schema = URLPtr()
-			}
+			schema = applyStringFormat(schema, URL())
 		case "uuid":
-			// Replace string schema with UUID schema
-			switch schema.(type) {
-			case *ZodString[string]:
-				schema = UUID()
-			case *ZodString[*string]:
-				schema = UUIDPtr()
-			}
+			schema = applyStringFormat(schema, UUID())
 		case "ipv4":
-			switch schema.(type) {
-			case *ZodString[string]:
-				schema = IPv4()
-			case *ZodString[*string]:
-				schema = IPv4Ptr()
-			}
+			schema = applyStringFormat(schema, IPv4())
 		case "ipv6":
-			switch schema.(type) {
-			case *ZodString[string]:
-				schema = IPv6()
-			case *ZodString[*string]:
-				schema = IPv6Ptr()
-			}
+			schema = applyStringFormat(schema, IPv6())
 		case "cidrv4":
-			switch schema.(type) {
-			case *ZodString[string]:
-				schema = CIDRv4()
-			case *ZodString[*string]:
-				schema = CIDRv4Ptr()
-			}
+			schema = applyStringFormat(schema, CIDRv4())
 		case "cidrv6":
-			switch schema.(type) {
-			case *ZodString[string]:
-				schema = CIDRv6()
-			case *ZodString[*string]:
-				schema = CIDRv6Ptr()
-			}
+			schema = applyStringFormat(schema, CIDRv6())
 		case "cuid":
-			switch schema.(type) {
-			case *ZodString[string]:
-				schema = CUID()
-			case *ZodString[*string]:
-				schema = CUIDPtr()
-			}
+			schema = applyStringFormat(schema, CUID())
 		case "cuid2":
-			switch schema.(type) {
-			case *ZodString[string]:
-				schema = CUID2()
-			case *ZodString[*string]:
-				schema = CUID2Ptr()
-			}
+			schema = applyStringFormat(schema, CUID2())
 		case "jwt":
-			switch schema.(type) {
-			case *ZodString[string]:
-				schema = JWT()
-			case *ZodString[*string]:
-				schema = JWTPtr()
-			}
+			schema = applyStringFormat(schema, JWT())
 		case "iso_datetime":
-			switch schema.(type) {
-			case *ZodString[string]:
-				schema = IsoDateTime()
-			case *ZodString[*string]:
-				schema = IsoDateTimePtr()
-			}
+			schema = applyStringFormat(schema, IsoDateTime())
 		case "iso_date":
-			switch schema.(type) {
-			case *ZodString[string]:
-				schema = IsoDate()
-			case *ZodString[*string]:
-				schema = IsoDatePtr()
-			}
+			schema = applyStringFormat(schema, IsoDate())
 		case "iso_time":
-			switch schema.(type) {
-			case *ZodString[string]:
-				schema = IsoTime()
-			case *ZodString[*string]:
-				schema = IsoTimePtr()
-			}
+			schema = applyStringFormat(schema, IsoTime())
 		case "iso_duration":
-			switch schema.(type) {
-			case *ZodString[string]:
-				schema = IsoDuration()
-			case *ZodString[*string]:
-				schema = IsoDurationPtr()
-			}
+			schema = applyStringFormat(schema, IsoDuration())
 		case "time":
 			// Special handling for time.Time fields
 			schema = Time()
 		case "positive", "negative", "nonnegative", "nonpositive", "finite":
 			schema = applyNumericTagRule(schema, rule.Name, "")
 		case "nonempty":
-			if stringSchema, ok := schema.(*ZodString[string]); ok {
-				schema = stringSchema.Min(1)
+			if stringSchema, ok := schema.(stringTagSchema); ok {
+				schema = stringSchema.applyStringTagChecks(checks.MinLength(1))
 			} else if sliceSchema, ok := schema.(*ZodSlice[string, []string]); ok {
 				schema = sliceSchema.Min(1)
 			} else if sliceIntSchema, ok := schema.(*ZodSlice[int, []int]); ok {
@@ -2275,6 +2202,32 @@ func applyParsedTagRules(schema core.ZodSchema, fieldInfo tagparser.FieldInfo) c
 		// If required, leave as is - pointer constructors by default don't accept nil for Parse
 	}
 
+	return schema
+}
+
+// stringTagSchema is implemented by *ZodString[T] and, through embedding, by
+// every string-format schema (ZodEmail, ZodURL, ZodUUID, ZodIPv4, ...), for
+// string and *string fields alike.
+type stringTagSchema interface {
+	applyStringTagChecks(checks ...core.ZodCheck) core.ZodSchema
+}
+
+func (z *ZodString[T]) applyStringTagChecks(checks ...core.ZodCheck) core.ZodSchema {
+	in := z.internals.Clone()
+	for _, check := range checks {
+		in.AddCheck(check)
+	}
+	return z.withInternals(in)
+}
+
+// applyStringFormat adds the checks of a string-format schema (Email(),
+// UUID(), ...) to the string schema built so far instead of replacing it:
+// the rules before and after the format rule are kept, and two format rules
+// combine in either order.
+func applyStringFormat(schema core.ZodSchema, format core.ZodSchema) core.ZodSchema {
+	if s, ok := schema.(stringTagSchema); ok {
+		return s.applyStringTagChecks(format.Internals().Checks...)
+	}
 	return schema
 }
 
@@ -2430,8 +2383,8 @@ func applyParameterizedRule(schema core.ZodSchema, ruleName, param string) core.
 		}
 	case "length":
 		if value, err := strconv.Atoi(param); err == nil {
-			if stringSchema, ok := schema.(*ZodString[string]); ok {
-				schema = stringSchema.Length(value)
+			if stringSchema, ok := schema.(stringTagSchema); ok {
+				schema = stringSchema.applyStringTagChecks(checks.Length(value))
 			} else if sliceSchema, ok := schema.(*ZodSlice[string, []string]); ok {
 				schema = sliceSchema.Length(value)
 			} else if sliceIntSchema, ok := schema.(*ZodSlice[int, []int]); ok {
@@ -2441,20 +2394,20 @@ func applyParameterizedRule(schema core.ZodSchema, ruleName, param string) core.
 			}
 		}
 	case "regex":
-		if stringSchema, ok := schema.(*ZodString[string]); ok {
-			schema = stringSchema.RegexString(param)
+		if stringSchema, ok := schema.(stringTagSchema); ok {
+			schema = stringSchema.applyStringTagChecks(checks.Regex(regexp.MustCompile(param)))
 		}
 	case "includes":
-		if stringSchema, ok := schema.(*ZodString[string]); ok {
-			schema = stringSchema.Includes(param)
+		if stringSchema, ok := schema.(stringTagSchema); ok {
+			schema = stringSchema.applyStringTagChecks(checks.Includes(param))
 		}
 	case "startswith":
-		if stringSchema, ok := schema.(*ZodString[string]); ok {
-			schema = stringSchema.StartsWith(param)
+		if stringSchema, ok := schema.(stringTagSchema); ok {
+			schema = stringSchema.applyStringTagChecks(checks.StartsWith(param))
 		}
 	case "endswith":
-		if stringSchema, ok := schema.(*ZodString[string]); ok {
-			schema = stringSchema.EndsWith(param)
+		if stringSchema, ok := schema.(stringTagSchema); ok {
+			schema = stringSchema.applyStringTagChecks(checks.EndsWith(param))
 		}
 	case "default":
 		schema = applyDefaultValue(schema, param)
@@ -2468,8 +2421,8 @@ func applyParameterizedRule(schema core.ZodSchema, ruleName, param string) core.
 // Helper functions for applying constraints
 func applyMinConstraint(schema core.ZodSchema, value int) core.ZodSchema {
 	switch s := schema.(type) {
-	case *ZodString[string]:
-		return s.Min(value)
+	case stringTagSchema:
+		return s.applyStringTagChecks(checks.MinLength(value))
 	case *ZodSlice[string, []string]:
 		return s.Min(value)
 	case *ZodSlice[int, []int]:
@@ -2488,8 +2441,8 @@ func applyMinConstraint(schema core.ZodSchema, value int) core.ZodSchema {
 
 func applyMaxConstraint(schema core.ZodSchema, value int) core.ZodSchema {
 	switch s := schema.(type) {
-	case *ZodString[string]:
-		return s.Max(value)
+	case stringTagSchema:
+		return s.applyStringTagChecks(checks.MaxLength(value))
 	case *ZodSlice[string, []string]:
 		return s.Max(value)
 	case *ZodSlice[int, []int]:
